@@ -3,10 +3,12 @@
 import json, os, glob
 root = os.path.join(os.path.dirname(os.path.abspath(__file__)), "..")
 checks = []
+pending_path = os.path.join(root, "checks", "pending.json")
+pending = json.load(open(pending_path)) if os.path.exists(pending_path) else {}
 for path in sorted(glob.glob(os.path.join(root, "checks", "C*.json"))):
     pid = os.path.basename(path)[:-5]
     m = json.load(open(path))
-    if m.get("disabled"):
+    if m.get("disabled") or pid in pending:
         continue
     checks.append({
         "property_id": pid,
@@ -25,6 +27,10 @@ claimed = {c["property_id"] for c in checks}
 props = [json.loads(l)["id"] for l in open(os.path.join(root, "properties.jsonl"))]
 na = [n for n in na if n["property_id"] not in claimed]
 listed = {n["property_id"] for n in na}
+for p in props:
+    if p not in claimed and p not in listed and p in pending:
+        na.append({"property_id": p, "reason": pending[p]})
+        listed.add(p)
 for p in props:
     if p not in claimed and p not in listed:
         na.append({"property_id": p, "reason": "check not built yet in this round (planned in DESIGN.md §8); no claim is made"})
